@@ -8,6 +8,8 @@ import (
 	"sort"
 	"strings"
 	"time"
+	"unicode/utf16"
+	"unicode/utf8"
 
 	"verif/oas"
 )
@@ -181,12 +183,39 @@ func EncodeDoc(v any, ws int) []byte {
 	return b.Bytes()
 }
 
+// escapeAll writes a JSON string in which every character is a \uXXXX escape
+// (surrogate pairs beyond the BMP) except '/', written as \/: valid JSON that
+// Go's own encoder never produces.
+func escapeAll(s string) []byte {
+	var b bytes.Buffer
+	b.WriteByte('"')
+	for _, r := range s {
+		switch {
+		case r == '/':
+			b.WriteString(`\/`)
+		case r == utf8.RuneError:
+			b.WriteString(`\ufffd`)
+		case r > 0xFFFF:
+			r1, r2 := utf16.EncodeRune(r)
+			fmt.Fprintf(&b, `\u%04x\u%04x`, r1, r2)
+		default:
+			fmt.Fprintf(&b, `\u%04X`, r)
+		}
+	}
+	b.WriteByte('"')
+	return b.Bytes()
+}
+
 func encodeDoc(b *bytes.Buffer, v any, ws int) {
 	sp := ""
 	if ws == 1 {
 		sp = " "
 	} else if ws == 2 {
 		sp = "\n\t "
+	}
+	if str, ok := v.(string); ok && ws == 3 {
+		b.Write(escapeAll(str))
+		return
 	}
 	switch t := v.(type) {
 	case nil:
@@ -198,6 +227,9 @@ func encodeDoc(b *bytes.Buffer, v any, ws int) {
 				b.WriteString("," + sp)
 			}
 			kb, _ := json.Marshal(k)
+			if ws == 3 {
+				kb = escapeAll(k)
+			}
 			b.Write(kb)
 			b.WriteString(sp + ":" + sp)
 			encodeDoc(b, t.vals[k], ws)
